@@ -171,7 +171,7 @@ theorem round_safe {cfg : Cfg} (hsync : cfg.syncSlot = true) (T : List Tx) (fs :
     have hafter : r.after cfg fs = (runCommits cfg (fs.steps (ioSteps (openA cfg fs.pv fs.wf)))
         ((memUpds (openA cfg fs.pv fs.wf)).foldl applyUpd {}) r.commits).1.crash r.mode := by
       simp [Round.after, hd, o1, o2]
-    have hsafe := safeFS_of_rep hInv'.pj hInv'.quiet ⟨cs', c', hInv'.com, hInv'.log, hInv'.pager⟩
+    have hsafe := safeFS_of_stable hInv'.pj hInv'.wal hInv'.log hInv'.pager hInv'.store
     obtain ⟨T', hT', hcl⟩ := closed_of_safe hsafe r.mode
     simp only [List.mem_singleton] at hT'
     subst hT'
@@ -316,16 +316,51 @@ theorem spec_run_eq (T : List Tx) : Spec.run T = ⟨allNodes T, allEdges T, allP
   | nil => rfl
   | cons tx T ih => simp [Spec.run, ih, allNodes, allEdges, allProps]
 
+theorem filterMap_id_map_some (xs : List Nat) : (xs.map some).filterMap id = xs := by
+  induction xs with
+  | nil => rfl
+  | cons x xs ih => simp [ih]
+
 theorem content_of_inv {T : List Tx} {fs : FS} {m : Mem} {cs : List CTx} {c : Nat} (h : InvOpen T fs m cs c) :
     Spec.Content.same (content m fs.pv) (Spec.run T) := by
-  rw [spec_run_eq]
+  rw [spec_run_eq, h.pv]
   refine ⟨h.mexts, ?_, ?_⟩
   · intro e
-    simp only [content, h.msegs, List.flatMap_nil, List.nil_append, h.mruns]
-    exact h.log.edges e
+    have : m.segs.flatMap (·.2) = (scan cs).segs.flatMap (segEdges fs.pd) := by
+      rw [h.msegs, List.flatMap_map]
+    simp only [content, this, h.mruns]
+    exact h.store.edges e
   · intro q
-    simp only [content, h.mroot, if_true, List.append_nil, h.mruns]
-    exact h.log.props q
+    obtain ⟨cov, hc1, hc2, hc3⟩ := h.store.props
+    by_cases hr : (scan cs).proot = 0
+    · simp only [content, h.mroot, hr, if_true, List.append_nil, h.mruns]
+      constructor
+      · exact h.store.runProps q
+      · intro hq
+        rcases hc1 q hq with h' | h'
+        · exact h'
+        · rw [hc2 hr] at h'; simp at h'
+    · obtain ⟨tr, hf, hto⟩ := hc3 hr
+      obtain ⟨xs, pid, hl, hsrt, hall, hcov⟩ := hto.shape
+      have hfind : fs.pd.trees.find? (fun t => t.key == (scan cs).proot) = some tr := hf
+      have hent : treeEntries tr = xs := by simp [treeEntries, hl, filterMap_id_map_some]
+      have hhas : ∀ q, treeHas fs.pd (scan cs).proot false q = (decide (q ∈ xs) && tr.blobs.contains q) := by
+        intro q
+        simp only [treeHas, hfind, Bool.false_eq_true, if_false, hl]
+        congr 1
+        rw [Bool.eq_iff_iff, leafFind_single xs hsrt pid q]
+        simp
+      simp only [content, h.mroot, hr, if_false, h.mptop, h.store.ptop, hfind, hent, h.mruns, List.mem_append, List.mem_filter, hhas]
+      constructor
+      · rintro (h' | ⟨h1, _⟩)
+        · exact h.store.runProps q h'
+        · exact hall q h1
+      · intro hq
+        rcases hc1 q hq with h' | h'
+        · exact Or.inl h'
+        · right
+          obtain ⟨h1, h2⟩ := hcov q h'
+          exact ⟨h1, by simp [h1, h2]⟩
 
 /-- **C01 + C02 over all histories of this shape**: whatever the incarnations did and wherever
     they died, the next open succeeds and shows the content of an admissible transaction list:
